@@ -27,8 +27,11 @@ REFSEL = ["none", "center", "lo", "hi", "above", "below", "inside", "inf"]  # "i
 
 
 def band(spec):
-    cf, bw, nchan = O.fq(spec["cf"]), O.fq(spec["sr"]), spec["sshape"][0]
-    return cf - bw * nchan / 2, cf + bw * nchan / 2, cf
+    """(lowest, highest frequency present in the signal, centre frequency): every channel holds label +- chan_bw/2.  For an even channel
+    count with 'bottom' / 'top' alignment that is NOT center_freq +- bandwidth/2 (the outermost channel straddles that edge) -- F33."""
+    cf, bw = O.fq(spec["cf"]), O.fq(spec["sr"])
+    labels = G.exact_labels(spec)
+    return labels[0] - bw / 2, labels[-1] + bw / 2, cf
 
 
 def ref_of(spec, sel):
